@@ -320,3 +320,5 @@ MANIFEST = {
 }
 MANIFEST['note'] += (' Also decided here (necessary conditions shared between properties or added after the independent '
                      'change rounds, DESIGN.md 8.7): policy message builder and mirror layouts (from C14), close() flushes first, every ACQUIRE handed over, configuration not mutated, registration of a rekey successor (from C16). Rounds 7-8: get_network / get_port semantics (from C12).')
+MANIFEST['note'] += (' Round 10: the entry index is the configured one or an independent draw from the module-level generator '
+                     '(from C19 B2) - the encode/decode pair presupposes distinct indices.')
